@@ -41,6 +41,7 @@ structure Req where
   kind : Kind
   key : Key
   isNan : Bool := false      -- the original function returns a NaN at this point
+  raises : Bool := false     -- the original function raises a (non-termination) exception here
   timeUp : Bool := false     -- the time limit is exceeded when the new-iteration callback runs
   tolStop : Option Term := none  -- a tolerance tester fires in the new-iteration callback
   deriving Repr
@@ -89,6 +90,7 @@ def store (db : List Entry) (k : Key) (n : OutName) : List Entry :=
 inductive Outcome where
   | served                 -- from the database, no call
   | computed               -- original function called (and recorded if applicable)
+  | raised                 -- original function called and raised: nothing recorded
   | stop (t : Term)        -- a termination exception propagates to `execute`
   deriving Repr, DecidableEq
 
@@ -99,7 +101,8 @@ def step (cfg : Cfg) (st : St) (r : Req) : St × Outcome :=
   else if unseen st.db r.key && maximumIsReached st then (st, .stop .maxIter)
   else
     let st1 : St := { st with calls := st.calls ++ [⟨r.name, r.kind, r.key⟩] }
-    if r.isNan && cfg.stopIfNan then (st1, .stop .functionIsNan)
+    if r.raises then (st1, .raised)
+    else if r.isNan && cfg.stopIfNan then (st1, .stop .functionIsNan)
     else
       let doStore := r.kind == .value || cfg.storeJac
       if !doStore then (st1, .computed)
